@@ -5,6 +5,12 @@ consumed are replayed on a second identically seeded generator and handed to the
 (coq/C19/Encoders.v, binary64 instance, vm_compute), whose spike tensor must equal the implementation's
 bit for bit.  Bernoulli encoders: the model's probabilities are fed to torch.bernoulli with the same seed
 and call pattern and the outcome must equal the implementation's.
+Adversarial schedules: every 5th case stubs the sampling primitives on the implementation side (c19_impl.StubLayer,
+inside the harness process only; fail closed when a real generator advances) with a schedule chosen by the generator
+- uniform draws exactly 0 / the largest float below 1 / exactly p, exponential draws tiny / huge / making intervals
+exact integers, Poisson samples 0 / 1 / steps / huge - on boundary configurations (frequency*refrac at and next to
+1000, intensities exactly 0 and 1, probabilities exactly 0 and 1), feeds the SAME schedule to the Coq model (for the
+Bernoulli encoders the model's [u < p] is then compared directly), and runs part of them in float32 (oracle only).
 Direct oracle (independent of the Coq model): shape / number of slices / dtype, silence at zero intensity,
 minimum gap and at-most-one-spike-per-refractory-window for the refractory Poisson encoder,
 reproducibility from the same generator state, constructor validation; configuration reached through property
@@ -38,7 +44,8 @@ LEVEL_NOTE = ("Trusted: Coq kernel; the hand-written model coq/C19/Encoders.v (v
               "rounding (refrac/dt just below an integer), statistical properties (rates), generator-state reproducibility "
               "(oracle only), the tie of the setter state machine (Encoders.assign, theorems explicit_refrac_sticky, "
               "assign_accepted_spec, assign_tracks_dt ...) to the property setters is correspondence + oracle "
-              "(oracle only), that online slices are distinct tensors (oracle only: both consumption modes + alias probe).")
+              "(oracle only), float32 (adversarial boundary configurations run in float32 are judged by the oracle only), that "
+              "online slices are distinct tensors (oracle only: both consumption modes + alias probe).")
 EXPLANATION = ("Every encoder is modelled as a function of the sampled values (exponential / Poisson / uniform draws are inputs), so "
                "'for all generator seeds' becomes 'for all draw lists' and is proved by induction / order arguments in Coq: shape "
                "(steps rows, time first, input size), silence at zero intensity (period +inf -> index `steps`, cut off; masked "
@@ -47,7 +54,9 @@ EXPLANATION = ("Every encoder is modelled as a function of the sampled values (e
                "limit, exact spike-time characterisations (floor of partial sums; countdown waits), and a witness that the gap "
                "fails outside frequency*refrac < 1000, which the constructor accepts.  The model is run inside Coq on the draws replayed from the real encoders and must "
                "reproduce their spike tensors exactly; the direct oracle evaluates the property on the real outputs.")
-TRUSTED = ["C19: replay of the encoders' sampler calls on a second identically seeded torch.Generator (tools/impl/c19_impl.py) - if the "
+TRUSTED = ["C19: the stub layer of the adversarial stream (tools/impl/c19_impl.StubLayer): its reading of torch.bernoulli(p) as "
+           "[u < p] with u in [0,1), of poisson as 0 at rate 0, and its generator-state test for uncovered primitives",
+           "C19: replay of the encoders' sampler calls on a second identically seeded torch.Generator (tools/impl/c19_impl.py) - if the "
            "implementation changes its sampling calls the correspondence breaks and the direct oracle takes over",
            "C19: torch samplers' ranges: exponential_ > 0, poisson >= 0 and integral (0 at rate 0), bernoulli(p) fires iff u < p for u in [0,1)"]
 ASSUMES = ["torch.Tensor.exponential_ returns strictly positive samples; torch.poisson returns integral samples, 0 at rate 0",
@@ -101,6 +110,9 @@ def in_domain(case) -> bool:
         return True
     if not case["comp"]:
         return True
+    if case.get("stream") == "adversarial":
+        # boundary configurations: exactly the limit the validating setters enforce (no safety margin)
+        return all(r * refrac_used(case) < 1000.0 for r in rates(case))
     return all(r * refrac_used(case) <= 995.0 for r in rates(case))
 
 
@@ -348,9 +360,95 @@ def gen_setter_case(rng):
     raise RuntimeError("setter case generation failed")
 
 
+# ------------------------------------------------------------------ adversarial schedules and boundary configurations
+STUBBED = ["Tensor.exponential_", "torch.poisson", "torch.bernoulli", "Tensor.bernoulli_", "torch.rand",
+           "torch.rand_like", "Tensor.uniform_"]
+BELOW1 = math.nextafter(1.0, 0.0)
+
+
+def gen_adversarial_case(rng, i):
+    """the random schedule is chosen by the generator (stubbed sampler, see tools/impl/c19_impl.StubLayer) and the
+    configuration sits on the boundaries: frequency * refrac at / next to the validity limit, intensities exactly 0
+    and 1, probabilities exactly 0 / 1; uniform draws exactly 0, the largest float below 1, exactly p; exponential
+    draws that are tiny, huge, or make an interval an exact integer; Poisson samples 0, 1, steps, huge."""
+    fam = rng.choice(["exp"] * 5 + ["bern"] * 3 + ["pint"] * 2)
+    steps = rng.choice([1, 2, 3, 5, 8, 12, 16])
+    dt = rng.choice([1.0, 1.0, 0.5, 2.0])
+    shape = rng.choice([[1], [2], [3], [4], [1, 3], [2, 2]])
+    n = nel(shape)
+    online = rng.random() < 0.5
+    case = {"online": online, "steps": steps, "dt": dt, "refrac": None, "comp": False, "shape": shape,
+            "seed": rng.randrange(1 << 30), "stream": "adversarial"}
+    if fam == "exp":
+        f32 = rng.random() < 0.3
+        kmul = rng.choice([1, 2, 2, 3, 4, 5])
+        refrac = kmul * dt
+        lim = 1000.0 / refrac
+        freq = rng.choice([lim, math.nextafter(lim, 0.0), lim - 1e-5, lim - 1e-5, lim / 2, lim / 4, 1000.0 / (dt * (kmul + 1)),
+                           1000.0 / (dt * (kmul + 2))])
+        xs = [rng.choice([1.0, 1.0, 0.0, 0.5, 0.25]) for _ in range(n)]
+        if rng.random() < 0.7:
+            xs[rng.randrange(n)] = 1.0
+        functional = rng.random() < 0.25
+        case.update(kind="f_exp" if functional else "hpe", refrac=refrac if (kmul > 1 or rng.random() < 0.5) else None,
+                    comp=rng.random() < 0.8, freq=1.0 if functional else freq,
+                    x=[freq * v for v in xs] if functional else xs)
+        tiny = 1e-30 if f32 else 5e-324
+        pool = [tiny, tiny, 2.0 ** -60, 0.25, 0.5, 1.0, 2.0, 3.0, 1e30 if f32 else 1e300]
+        # draws that make e * scale an exact small integer for the brightest element
+        inp = freq
+        scale = (1 / inp) * (1000.0 / dt) - (refrac / dt if case["comp"] else 0.0)
+        if scale > 0:
+            pool += [1.0 / scale, 2.0 / scale]
+        mode = rng.random()
+        if mode < 0.3:
+            sched = [tiny]
+        elif mode < 0.5:
+            sched = [rng.choice(pool)]
+        else:
+            sched = [rng.choice(pool) for _ in range(rng.randint(2, 9))]
+        case["stub"] = {"exp": sched}
+        if f32:
+            case["dtype"] = "f32"
+    elif fam == "pint":
+        functional = rng.random() < 0.3
+        freq = rng.choice([1000.0, 500.0, 100.0]) / dt
+        xs = [rng.choice([1.0, 0.0, 0.5]) for _ in range(n)]
+        case.update(kind="f_pint" if functional else "pie", freq=1.0 if functional else freq,
+                    x=[freq * v for v in xs] if functional else xs)
+        pool = [0, 0, 1, 1, 2, 3, steps, steps + 1, steps + 2, 10 ** 6]
+        case["stub"] = {"pois": [float(rng.choice(pool)) for _ in range(rng.randint(1, 9))]}
+    else:
+        kind = rng.choice(["hpa", "hpa", "f_bern", "f_inhomog"])
+        if kind == "f_inhomog":
+            online = case["online"] = False
+        # probabilities exactly 0, exactly 1 (rate * dt = 1000), above 1, and ordinary ones
+        fmax = 1000.0 / dt
+        rts = [rng.choice([0.0, fmax, fmax, 2 * fmax, fmax / 2, fmax / 4, math.nextafter(fmax, 0.0), 0.1 * fmax])
+               for _ in range(n * (steps if kind == "f_inhomog" else 1))]
+        if kind == "hpa":
+            case.update(kind="hpa", freq=fmax, x=[v / fmax for v in rts])
+            rts = [fmax * v for v in case["x"]]
+        else:
+            case.update(kind=kind, freq=1.0, x=rts)
+        ps = [min((v / 1000.0) * dt, 1.0) for v in rts]
+        us = []
+        for t in range(steps):
+            for j in range(n):
+                p = ps[t * n + j] if kind == "f_inhomog" else ps[j]
+                pu = min(p, BELOW1)          # uniform draws live in [0, 1)
+                us.append(rng.choice([0.0, 0.0, BELOW1, pu, pu, math.nextafter(p, 0.0) if p > 0 else 0.0,
+                                      math.nextafter(p, 2.0) if p < 1 else BELOW1, 0.5]))
+        case["stub"] = {"unif": us}
+    return case
+
+
 def gen_cases(rng, n):
     out = []
     for i in range(n):
+        if i % 5 == 4:
+            out.append(gen_adversarial_case(rng, i))
+            continue
         if i % 5 == 2:
             out.append(gen_setter_case(rng))
             continue
@@ -451,6 +549,8 @@ def q_case_plain(c, r, cfg=None):
             return f"run_pie_online {cfg} {xs} {q_zl(r.get('draws0', []))} {q_zll(r.get('draws_steps', []))}"
         return f"run_pie_offline {cfg} {xs} {q_zll(r.get('draws', []))}"
     if k == "hpa":
+        if c.get("stub"):
+            return f"run_hpa_spikes {cfg} {xs} {q_fll(r.get('unif_rows', []))}"
         return f"run_hpa {cfg} {xs}"
     refrac = "None" if c["refrac"] is None else f"(Some {q_f(c['refrac'])})"
     st = f"{int(c['steps'])}%nat"
@@ -465,6 +565,12 @@ def q_case_plain(c, r, cfg=None):
             return (f"ser_matrix (pi_online FN {st} {xs} {q_zl(r.get('draws0', []))} "
                     f"{q_zll(r.get('draws_steps', []))})")
         return f"ser_result ser_matrix (pi_offline FN {st} {xs} {q_zll(r.get('draws', []))})"
+    if k == "f_bern" and c.get("stub"):
+        return f"run_f_bern_spikes {st} {q_f(c['dt'])} {xs} {q_fll(r.get('unif_rows', []))}"
+    if k == "f_inhomog" and c.get("stub"):
+        n = nel(c["shape"])
+        rows = [c["x"][i * n:(i + 1) * n] for i in range(c["steps"])]
+        return f"run_f_inhomog_spikes {q_f(c['dt'])} {q_fll(rows)} {q_fll(r.get('unif_rows', []))}"
     if k == "f_bern":
         return f"ser_list ser_float (map (bern_prob FN {q_f(c['dt'])}) {xs})"
     if k == "f_inhomog":
@@ -513,6 +619,21 @@ def compare(c, r, m, bern_out):
                         "impl": {"raised": t[0], "getters": t[1][:5], "info": t[2]}}
         m = m[3]
     k = c["kind"]
+    if c.get("stub"):
+        if r.get("rng_consumed"):
+            return {"what": "the encoder drew from a sampling primitive the stub layer does not cover (a real generator "
+                            "advanced); covered: " + ", ".join(STUBBED), "primitives_seen": r.get("prims")}
+        if is_bern(c):
+            # the model ran on the same uniform draws: its spike tensor must be the implementation's
+            if k == "hpa":
+                if m[0] == 1:
+                    ok = r["status"] == "raised" and r["exc"] == m[1]
+                    return None if ok else {"model": "Err %d" % m[1], "impl": r["status"], "msg": r["msg"]}
+                m = m[1]
+            if r["status"] != "ok":
+                return {"model": "ok", "impl": "raised", "msg": r["msg"]}
+            return None if m == r["out"] else {"what": "spike tensors differ on the same uniform draws",
+                                                "model": m, "impl": r["out"], "uniform_draws": r.get("unif_rows")}
     if is_bern(c):
         if k == "hpa":
             if m[0] == 1:
@@ -606,6 +727,17 @@ def oracle(c, r):
         bad = [(t, j) for j in range(n) if c["x"][j] == 0 for t in range(steps) if out[t][j]]
     if bad:
         fail("zero_not_silent", {"spikes_at_zero_intensity (step, element)": bad[:5]})
+    # 2b. saturation: a Bernoulli element whose probability is clamped to 1 fires at every step
+    if is_bern(c):
+        dtv = c["dt"]
+        if k == "f_inhomog":
+            sat = [(t, j) for t in range(steps) for j in range(n)
+                   if (c["x"][t * n + j] / 1000.0) * dtv >= 1.0 and not out[t][j]]
+        else:
+            rs = rates(c)
+            sat = [(t, j) for j in range(n) if (rs[j] / 1000.0) * dtv >= 1.0 for t in range(steps) if not out[t][j]]
+        if sat:
+            fail("saturated_not_firing", {"silent at probability 1 (step, element)": sat[:5]})
     # 3. refractory gap and at most one spike per refractory window (refractory encoder, inside its domain)
     if k in ("hpe", "f_exp") and dom:
         g = max(1, kfloor(c))
@@ -669,7 +801,7 @@ def evaluate(cases):
     model = F.eval_terms(ID, HEADER, [q_case(c, r) for c, r in zip(cases, impl)], shard=40)
     bcases, bidx = [], []
     for i, (c, m) in enumerate(zip(cases, model)):
-        if not is_bern(c) or isinstance(m, Exception) or not config_valid(c):
+        if not is_bern(c) or isinstance(m, Exception) or not config_valid(c) or c.get("stub"):
             continue
         m = fwd_tree(c, m)
         if c["kind"] == "hpa":
@@ -717,6 +849,8 @@ def run(ctx):
         fs = oracle(c, r)
         for f in fs:
             oracle_fail.append({"case": c, "detail": f["detail"], "signature": f["signature"]})
+        if c.get("dtype") == "f32":
+            continue        # float32 is not modelled (binary64 instance only); judged by the oracle only
         if c.get("stream") == "negzero":
             continue        # -0.0 has no counterpart in the real-number model; judged by the oracle only
         if isinstance(m, Exception):
@@ -755,6 +889,10 @@ def run(ctx):
         "impl_status": dict(Counter(r["status"] if r["status"] == "ok" else "raised:%s" % r["exc"] for r in impl)),
         "spikes_observed": spikes_total, "refractory_gaps_checked": gaps_checked,
         "online_cases_consumed_both_ways_and_alias_probed": online_probed,
+        "adversarial_cases": sum(1 for c in cases if c.get("stub")),
+        "adversarial_cases_float32_oracle_only": sum(1 for c in cases if c.get("dtype") == "f32"),
+        "stubbed_primitives": STUBBED,
+        "primitives_drawn_from": dict(Counter(p for r in impl for p in (r.get("prims") or []))),
         "setter_assignments_checked": sum(len(c.get("assign", [])) for c in cases),
         "setter_assignment_kinds": dict(Counter(a[0] + ("=None" if a[1] is None else "") for c in cases
                                                 for a in c.get("assign", []))),
